@@ -77,7 +77,7 @@ Proof. exact RoundTripExamples.env0_nonrecursive. Qed.
    are the serialisation (Skip.v: ser_fields, the independent description of the wire format) of a field list fs
    built from the IDL types and the value alone (WireSpec.v: wire_fields/wire_of) that is well formed (fields_ok:
    byte ranges, tags < 256, lengths within the format's fields, recursively), conforms to the schema (every field
-   under the tag of a member, in schema order, with a wire type the member's IDL type admits; a member is
+   under the tag of a member, in schema order, with a wire type the member's IDL type accepts; a member is
    missing only if optional) and has strictly ascending tags (so every member at most once). Nested struct
    values are WStruct (wire_fields ...) of their own schema, so the same holds at every level. *)
 Theorem C03_wire_conformance : forall e k sid vs,
@@ -94,7 +94,7 @@ Proof. exact (fun e n => proj1 (WireSpecProofs.wire_all e n)). Qed.
 (* integers in their narrowest width: the wire tree of an integer serialises to the declarative spec_int of C02 *)
 Theorem C03_int_narrowest : forall z tag, fits 64 z = true -> ser_field (tag, wint z) = spec_int z tag.
 Proof. exact WireSpecProofs.wint_narrowest. Qed.
-(* the wire type of every member is one the reader of its IDL type admits *)
+(* the wire type of every member is one the reader of its IDL type accepts *)
 Theorem C03_wire_admissible : forall e t v, has_type e t v -> adm t (ty_of (wire_of e t v)) = true.
 Proof. exact WireSpecProofs.adm_wire. Qed.
 
